@@ -58,6 +58,8 @@ pub struct SessCfg {
     pub trace: bool,
     /// time provider that never advances (timestamps of rewrites do not change)
     pub frozen_clock: bool,
+    /// which order of FsOptions builder calls the first mount uses (rotates with every epoch)
+    pub opt_order: u8,
 }
 
 impl SessCfg {
@@ -78,6 +80,7 @@ impl SessCfg {
             fail_writes: false,
             trace: false,
             frozen_clock: false,
+            opt_order: 0,
         }
     }
     pub fn on(&self, p: &str) -> bool {
@@ -622,9 +625,18 @@ pub fn run_session(cfg: &SessCfg, img0: &Image, vol_bytes: u64, cfg_class: u64, 
 
 fn mk_fs(s: &Sess) -> Result<Fs, fatfs::Error<crate::dev::DevError>> {
     s.dev.set_pos(0);
-    let opts = fatfs::FsOptions::new()
-        .time_provider(s.clock.clone())
-        .update_accessed_date(s.cfg.update_accessed);
+    // the option builder is part of the API: every order of the builder calls must give the same options
+    let c = s.clock.clone();
+    let a = s.cfg.update_accessed;
+    let lossy = fatfs::LossyOemCpConverter::new();
+    let opts = match (s.cfg.opt_order + s.counters.epochs as u8) % 6 {
+        0 if !a => fatfs::FsOptions::new().time_provider(c),
+        1 => fatfs::FsOptions::new().update_accessed_date(a).time_provider(c),
+        2 => fatfs::FsOptions::new().time_provider(c).update_accessed_date(a),
+        3 => fatfs::FsOptions::new().strict(true).update_accessed_date(a).time_provider(c).oem_cp_converter(lossy),
+        4 => fatfs::FsOptions::new().update_accessed_date(a).oem_cp_converter(lossy).time_provider(c).strict(true),
+        _ => fatfs::FsOptions::new().update_accessed_date(a).strict(true).oem_cp_converter(lossy).time_provider(c),
+    };
     fatfs::FileSystem::new(s.dev.handle(), opts)
 }
 
